@@ -31,6 +31,7 @@ type xl struct {
 	opaque   map[string]string
 	opaquePs []xlParam
 	touched  map[string]bool // flattened-receiver / opaque parameters referenced (loops capture them)
+	usesRec  bool            // a self-call was translated (translate_rec.go)
 	// translate_dom.go
 	optVars                      map[types.Object]bool // variables of Lean type `Option …` (may be nil)
 	paramObjs                    map[types.Object]bool
@@ -94,6 +95,17 @@ func isStringy(t types.Type) bool {
 func isInty(t types.Type) bool {
 	b, ok := t.Underlying().(*types.Basic)
 	return ok && (b.Kind() == types.Int || b.Kind() == types.UntypedInt)
+}
+func hasFmtMethod(t types.Type) bool {
+	for _, tt := range []types.Type{t, types.NewPointer(t)} {
+		ms := types.NewMethodSet(tt)
+		for _, n := range []string{"String", "Error", "Format", "GoString"} {
+			if ms.Lookup(nil, n) != nil {
+				return true
+			}
+		}
+	}
+	return false
 }
 func isBuilder(t types.Type) bool {
 	if p, ok := t.(*types.Pointer); ok {
@@ -199,6 +211,11 @@ func (x *xl) calleeMonadic(c *ast.CallExpr) bool {
 		if b, ok := x.p.info.Uses[id].(*types.Builtin); ok && b.Name() == "panic" {
 			return true
 		}
+		if b, ok := x.p.info.Uses[id].(*types.Builtin); ok && b.Name() == "make" && len(c.Args) == 2 {
+			if tv := x.p.info.Types[c.Args[1]]; tv.Value == nil || constant.Sign(tv.Value) != 0 {
+				return true
+			}
+		}
 	}
 	fn := x.calleeFunc(c)
 	if fn == nil {
@@ -206,6 +223,9 @@ func (x *xl) calleeMonadic(c *ast.CallExpr) bool {
 	}
 	if d := x.lookupDone(fn); d != nil {
 		return d.monadic
+	}
+	if x.f.Rec && fn == x.p.info.Defs[x.fd.Name] {
+		return true
 	}
 	for _, o := range x.f.Opaque {
 		if o == funcKey(fn) {
@@ -292,6 +312,9 @@ func (x *xl) expr(e ast.Expr) ([]string, string, error) {
 				return nil, "", x.errf(e, "field identifier %s", y.Name)
 			}
 			if o.Parent() == o.Pkg().Scope() {
+				if x.pkgVarEmptySlice(o) {
+					return nil, "[]", nil
+				}
 				return nil, "", x.errf(e, "package-level variable %s", y.Name)
 			}
 			if x.f.Flatten && o == x.recv {
@@ -310,6 +333,16 @@ func (x *xl) expr(e ast.Expr) ([]string, string, error) {
 			return nil, "", err
 		}
 		switch y.Op {
+		case token.AND:
+			// &x of a local variable: pointer identity is not modelled (translate_rec.go)
+			if id, ok := y.X.(*ast.Ident); ok {
+				if v, ok := info.Uses[id].(*types.Var); ok && !v.IsField() && v.Parent() != v.Pkg().Scope() {
+					switch v.Type().Underlying().(type) {
+					case *types.Basic, *types.Slice: // slices have value semantics in the model
+						return b, "(some " + s + ")", nil
+					}
+				}
+			}
 		case token.NOT:
 			return b, "(!" + s + ")", nil
 		case token.SUB:
@@ -693,6 +726,22 @@ func (x *xl) sprintf(c *ast.CallExpr) ([]string, string, error) {
 				return nil, "", x.errf(c, "format verb %%%c applied to %s", rs[i], t)
 			}
 			ai++
+		case 'v': // %v of a plain string / int (a type with a String, Error or Format method prints differently: rejected)
+			if ai >= len(args) {
+				return nil, "", x.errf(c, "format %q: missing argument", format)
+			}
+			t := x.typeOf(c.Args[1+ai])
+			flush()
+			if hasFmtMethod(t) {
+				return nil, "", x.errf(c, "format verb %%v applied to %s, which has a String / Error / Format method", t)
+			} else if isStringy(t) {
+				parts = append(parts, "Go.fmtS "+args[ai])
+			} else if isInty(t) {
+				parts = append(parts, "Go.fmtD "+args[ai])
+			} else {
+				return nil, "", x.errf(c, "format verb %%v applied to %s", t)
+			}
+			ai++
 		default:
 			return nil, "", x.errf(c, "format verb %%%c", rs[i])
 		}
@@ -743,7 +792,7 @@ func (x *xl) call(c *ast.CallExpr) ([]string, string, error) {
 	switch f := c.Fun.(type) {
 	case *ast.Ident:
 		if x.w.dom {
-			if b, s, ok, err := x.funcValueCall(c, f); ok || err != nil {
+			if b, s, ok, err := x.domFuncValueCall(c, f); ok || err != nil {
 				return b, s, err
 			}
 		}
@@ -789,7 +838,20 @@ func (x *xl) call(c *ast.CallExpr) ([]string, string, error) {
 						return nil, "[]", nil
 					}
 				}
-				return nil, "", x.errf(c, "make other than make([]T, 0)")
+				if sl, ok := x.typeOf(c).Underlying().(*types.Slice); ok && len(c.Args) == 2 {
+					// make([]T, n): n zero values, panic for n < 0 (GoPrelude makeL)
+					z, err := x.zeroOf(c, sl.Elem())
+					if err != nil {
+						return nil, "", err
+					}
+					bs, n, err := x.expr(c.Args[1])
+					if err != nil {
+						return nil, "", err
+					}
+					bs, t := x.bindTmp(bs, fmt.Sprintf("Go.makeL %s %s", z, n))
+					return bs, t, nil
+				}
+				return nil, "", x.errf(c, "make other than make([]T, n)")
 			case "panic":
 				// the argument is evaluated first (it may itself panic), its value is not modelled
 				bs, _, err := x.exprs(c.Args)
@@ -863,7 +925,16 @@ func (x *xl) call(c *ast.CallExpr) ([]string, string, error) {
 	}
 	fn := x.calleeFunc(c)
 	if fn == nil {
+		if bs, v, ok, err := x.funcValueCall(c); ok {
+			return bs, v, err
+		}
 		return nil, "", x.errf(c, "call of a non-function")
+	}
+	if !(x.w.dom && x.f.External == "") {
+		// (DOM mode: callWhitelisted below coerces the arguments — nil-able parameters, interface conversions)
+		if bs, v, ok, err := x.flatCall(c, fn); ok {
+			return bs, v, err
+		}
 	}
 	// standard library
 	if fn.Pkg() != nil && !strings.HasPrefix(fn.Pkg().Path(), xlModule) {
@@ -896,6 +967,8 @@ func (x *xl) call(c *ast.CallExpr) ([]string, string, error) {
 			"slices.Index":      {"Go.slicesIndex", 2},
 			"slices.Contains":   {"Go.slicesContains", 2},
 			"strconv.Atoi":      {"Go.atoi", 1},
+			"strings.Join":      {"Go.stringsJoin", 2},
+			"strings.TrimSpace": {"Go.trimSpace", 1},
 		}
 		if x.w.dom {
 			prims["github.com/google/go-cmp/cmp.Equal"] = struct {
